@@ -1,5 +1,7 @@
 """More per-property checks: trees (C04, C07, C14), values (C06, C13, C15, C19), declarations (C16, C18)."""
 import copy
+import json
+import os
 import itertools
 
 import core
@@ -1109,6 +1111,18 @@ def check_C18(ctx):
                 ctx.violation("declaration", "declarations %r: expected %r at declaration %d, got %r"
                               % ([d["name"] for d in c["_all"]], want, i, a["outcome"]), case=c)
     stats["with_version"] = sum(1 for c in cases if c["version"])
+    # informational: the exported functions and methods of package cli in the current source, and those among them that the
+    # harness never calls (a declaration method added to the library would be listed here until the harness learns it)
+    try:
+        import re as _re
+        rc_, out_ = core.sh("go run ./srcscan %s" % core.REPO, cwd=os.path.join(core.VERIF, "tools"), env=core.GOENV, check=False)
+        api = json.loads(out_).get("api", []) if rc_ == 0 else []
+        hsrc = open(os.path.join(core.HARNESS, "main.go")).read()
+        uncalled = [a for a in api if not _re.search((r"\.%s\(" % a.split(".")[-1]) if "." in a else (r"cli\.%s\(" % a), hsrc)]
+        ctx.notes.append("exported API of package cli in the current source: %d functions and methods; not called by the harness: %s"
+                         % (len(api), uncalled or "none"))
+    except Exception as e_:     # never a reason to fail the check
+        ctx.notes.append("exported API not listed: %r" % (e_,))
     ctx.stream("declaration sequences", 0, **stats)
     ctx.sample({"decls": ["f force", "o f"], "expected": "panic duplicate option name -f"})
     return ("random sequences of 1-6 declarations with option name lists drawn from a pool that forces collisions "
